@@ -12,3 +12,8 @@ package signappx
 //@ func (*ContentTypes).Find
 //@   property C11
 //@   nopanic
+//@
+//@ func (*blockMap).CopySizes
+//@   property C11
+//@   nopanic
+//@   requires b != nil
